@@ -57,7 +57,8 @@ impl<'a> Iterator for NumericList<'a> {
                     Error::new(ErrorCode::InvalidExpression).extended(err.get_message())
                 })
             }
-            x if x.is_ascii_digit() || *x == b'-' || *x == b'+' && self.first => {
+            // Only the first entry may start without a separator, any <NRf> spelling is allowed
+            x if (x.is_ascii_digit() || *x == b'-' || *x == b'+' || *x == b'.') && self.first => {
                 self.first = false;
                 self.read_numeric_data().map_err(|err| {
                     Error::new(ErrorCode::InvalidExpression).extended(err.get_message())
